@@ -196,13 +196,17 @@ var dbSeq int64
 type Mode struct {
 	Store string // "file" | "mem"
 	FK    bool   // _fk=1
-	Tx    string // "none" | "file" (the CLI's --tx-mode) | "rawtx" (a plain sql.Tx handed to sqlite.Open)
+	Tx    string // "none" | "file" (the CLI's --tx-mode) | "rawtx" (a plain sql.Tx handed to sqlite.Open) | "prefix"
+	K     int    // prefix: number of plan statements executed before the run is cut off
 }
 
 func (m Mode) String() string {
 	fk := "fk0"
 	if m.FK {
 		fk = "fk1"
+	}
+	if m.Tx == "prefix" {
+		return fmt.Sprintf("%s/%s/prefix%d", m.Store, fk, m.K)
 	}
 	return m.Store + "/" + fk + "/" + m.Tx
 }
@@ -273,7 +277,7 @@ func desiredSchema(ctx context.Context, ddl []string) (*schema.Schema, error) {
 }
 
 // applyLikeCLI mirrors cmdapi.applyChanges (cmd/atlas/internal/cmdapi/schema.go).
-func applyLikeCLI(ctx context.Context, client *sqlclient.Client, changes []schema.Change, tx string) error {
+func applyLikeCLI(ctx context.Context, client *sqlclient.Client, changes []schema.Change, tx string, k int) error {
 	switch tx {
 	case "none":
 		return client.ApplyChanges(ctx, changes)
@@ -287,6 +291,19 @@ func applyLikeCLI(ctx context.Context, client *sqlclient.Client, changes []schem
 			return err
 		}
 		return t.Commit()
+	case "prefix":
+		// A run without a transaction that is cut off after k statements (the process is killed, or
+		// statement k+1 is refused): the first k statements of the plan, one by one.
+		plan, err := client.PlanChanges(ctx, "prefix", changes)
+		if err != nil {
+			return err
+		}
+		for i := 0; i < k && i < len(plan.Changes); i++ {
+			if _, err := client.DB.ExecContext(ctx, plan.Changes[i].Cmd, plan.Changes[i].Args...); err != nil {
+				return fmt.Errorf("prefix statement %d: %w", i, err)
+			}
+		}
+		return errPrefix
 	case "rawtx":
 		// A library user that hands its own *sql.Tx to sqlite.Open: the pragma
 		// bracket of the plan is a no-op inside the transaction.
@@ -307,6 +324,8 @@ func applyLikeCLI(ctx context.Context, client *sqlclient.Client, changes []schem
 	}
 	return fmt.Errorf("unknown tx mode %q", tx)
 }
+
+var errPrefix = fmt.Errorf("plan cut off (prefix mode)")
 
 // changedTables returns the names of tables that are part of the change set
 // (modified, dropped or added).
